@@ -3,7 +3,8 @@
    regenerated on every run from Processor.__deepcopy__, ModelGroup.__deepcopy__ and the copy
    sites of observation / dask observation / calibration. *)
 From Coq Require Import String ZArith List Arith Bool Lia.
-From PyxelV Require Import Model.Heap Model.HeapExc Proofs.HeapFrame Proofs.HeapExcFrame.
+From PyxelV Require Import Model.Heap Model.HeapExc Model.HeapRng Proofs.HeapFrame Proofs.HeapExcFrame
+  Proofs.HeapRngFrame.
 From PyxelGen Require Import Gen_C06.
 Import ListNotations.
 Open Scope string_scope.
@@ -320,6 +321,149 @@ Proof.
   eapply (F Z run_param run_param_frame2); [exact E|]. simpl; lia.
 Qed.
 Print Assumptions C06_value_copy_necessary.
+
+(* ------------------------------------------------------------------ the random generator (round 2b) *)
+
+(* A stochastic model without a seed of its own (shot noise, a user model calling numpy.random) makes
+   the generator state an INPUT of the run.  Model/HeapRng.v threads it explicitly: a pipeline is
+   run : params -> gen -> heap -> loc -> heap * gen * option res, `with set_random_seed(sd)` is
+   [seeded], the standalone exposure with pipeline_seed sd is [standalone] (= the run started from
+   seed_gen sd on a copy of the user's configuration), and WHERE the run sites put the bracket is the
+   regenerated table src_seeding.
+
+   What the current source says: all four run sites (observation loop, observation under dask,
+   calibration fitness, calibration post-processing) bracket EVERY run with the user's seed *)
+Theorem C06_source_seeding : seeding_ok src_seeding = true.
+Proof. vm_compute. reflexivity. Qed.
+Print Assumptions C06_source_seeding.
+
+(* the statement, for a seeding discipline: for EVERY generator type and seeding function, EVERY
+   parameter-setting function and EVERY pipeline (stochastic or not, failing or not) that touch only
+   what they reach from their processor and whose outcome is a function of the copied graph and of the
+   generator state they START from; for every seed, every history of earlier calls on the same
+   objects, every state g0 of the ambient generator, every list of runs:
+   the outcomes of the call are the outcomes of the standalone exposures of its parameter lists, in
+   order - all of them (dask path), or up to the first failing run (loop path).  Since the right-hand
+   side mentions neither the other runs, nor their order, nor the history, nor g0, a run's outcome
+   does not depend on any of them. *)
+Definition C06_seeded_runs_statement (d : seeding) : Prop :=
+  forall (params res gen seed : Type) (seed_gen : seed -> gen)
+         (setp : params -> heap -> loc -> heap * bool)
+         (run : params -> gen -> heap -> loc -> heap * gen * option res),
+    (forall g ps s l, frame_ok s l (fst (exec params res setp (run_at params res gen run g) ps s l))) ->
+    (forall g ps sa sb C, closed_graph C -> C <> [] ->
+       snd (exec params res setp (run_at params res gen run g) ps (sa ++ shift (length sa) C) (length sa)) =
+       snd (exec params res setp (run_at params res gen run g) ps (sb ++ shift (length sb) C) (length sb))) ->
+    forall sd s0 p s1 c, deepcopy src_policy s0 p = Some (s1, c) ->
+    forall cs stop rs g0,
+      let h := calls_rng params res gen seed seed_gen setp run d (Some sd) src_policy cs g0 s0 p in
+      exists n,
+        snd (observe_rng params res gen seed seed_gen setp run d (Some sd) stop src_policy rs
+               (snd (fst h)) (fst (fst h)) p)
+        = firstn n (map (standalone params res gen seed seed_gen setp run src_policy sd s0 p) rs) /\
+        (stop = false -> n = length rs).
+
+Theorem C06_seeded_runs_equal_standalone : forall site d,
+  In (site, d) src_seeding -> C06_seeded_runs_statement d.
+Proof.
+  intros site d Hin.
+  assert (d = SeedEachRun).
+  { assert (P : seeding_ok src_seeding = true) by (vm_compute; reflexivity).
+    unfold seeding_ok in P. apply andb_prop in P. destruct P as [_ P]. rewrite forallb_forall in P.
+    specialize (P _ Hin). simpl in P. destruct d; [reflexivity|discriminate|discriminate]. }
+  subst d. intros params res gen seed seed_gen setp run Hfr Hloc sd s0 p s1 c Hd cs stop rs g0. cbv zeta.
+  eapply seeded_runs_standalone; eauto; vm_compute; reflexivity.
+Qed.
+Print Assumptions C06_seeded_runs_equal_standalone.
+
+(* and the caller's side with the generator in the state: after any history of seeded calls - under
+   ANY seeding discipline that uses the seed - every location of the caller's heap holds what it held,
+   and the ambient generator is in the state the caller left it in *)
+Theorem C06_frame_rng : forall site d, In (site, d) src_seeding ->
+  forall (params res gen seed : Type) (seed_gen : seed -> gen)
+         (setp : params -> heap -> loc -> heap * bool)
+         (run : params -> gen -> heap -> loc -> heap * gen * option res),
+    (forall g ps s l, frame_ok s l (fst (exec params res setp (run_at params res gen run g) ps s l))) ->
+    forall sd cs g0 s0 p,
+      (forall x, x < length s0 ->
+         nth_error (fst (fst (calls_rng params res gen seed seed_gen setp run d sd src_policy cs g0 s0 p))) x
+         = nth_error s0 x) /\
+      (forall x, sd = Some x ->
+         snd (fst (calls_rng params res gen seed seed_gen setp run d sd src_policy cs g0 s0 p)) = g0).
+Proof.
+  intros site d Hin params res gen seed seed_gen setp run Hfr sd cs g0 s0 p. split.
+  - intros x Hx. apply calls_rng_frame_locs; auto; vm_compute; reflexivity.
+  - intros x ->. apply calls_rng_gen_restored.
+    assert (P : seeding_ok src_seeding = true) by (vm_compute; reflexivity).
+    unfold seeding_ok in P. apply andb_prop in P. destruct P as [_ P]. rewrite forallb_forall in P.
+    specialize (P _ Hin). simpl in P. destruct d; [discriminate|discriminate|discriminate].
+Qed.
+Print Assumptions C06_frame_rng.
+
+(* non-vacuity: a stochastic pipeline (it returns the detector memory plus the number it draws, moves
+   the memory on, advances the generator by k+1, raises when it drew more than 1000) satisfies the
+   hypotheses; three seeded calls - one aborted by a rejected value - give every run the standalone
+   outcome 5+k+7 under seed 7, whatever the ambient generator (99) and the order *)
+Example rng_hypotheses_satisfiable :
+  (forall g k s l, frame_ok s l (fst (exec Z Z setp_nonneg (run_at Z Z Z run_draw g) k s l))) /\
+  (forall g k sa sb C, closed_graph C -> C <> [] ->
+     snd (exec Z Z setp_nonneg (run_at Z Z Z run_draw g) k (sa ++ shift (length sa) C) (length sa)) =
+     snd (exec Z Z setp_nonneg (run_at Z Z Z run_draw g) k (sb ++ shift (length sb) C) (length sb))).
+Proof. split; [exact exec_draw_frame | exact exec_draw_local]. Qed.
+
+Example calls_rng_demo :
+  let h := [(true, [1; -1; 2]); (false, [3; 1]); (true, [2; 1])]%Z in
+  snd (calls_rng Z Z Z Z seed_id setp_nonneg run_draw SeedEachRun (Some 7%Z) src_policy h 99%Z demo_heap 0) =
+    [[Some 13; None]; [Some 15; Some 13]; [Some 14; Some 13]]%Z /\
+  snd (fst (calls_rng Z Z Z Z seed_id setp_nonneg run_draw SeedEachRun (Some 7%Z) src_policy h 99%Z demo_heap 0)) = 99%Z /\
+  standalone Z Z Z Z seed_id setp_nonneg run_draw src_policy 7%Z demo_heap 0 1%Z = Some 13%Z.
+Proof. vm_compute. repeat split; reflexivity. Qed.
+
+(* ONE bracket around the whole loop (and the runs inside not seeded), or no bracket at all, loses the
+   statement: run 0 still is the standalone exposure, run 1 draws from the stream run 0 left - the
+   model can express the defect, and the theorem above is about where the source puts the bracket *)
+Theorem C06_seed_once_per_call_refuted :
+  ~ C06_seeded_runs_statement SeedOncePerCall /\ ~ C06_seeded_runs_statement SeedNever.
+Proof.
+  assert (Hd : exists s1 c, deepcopy src_policy demo_heap 0 = Some (s1, c)).
+  { vm_compute. do 2 eexists. reflexivity. }
+  destruct Hd as [s1 [c Hd]].
+  split; intro F.
+  - destruct (F Z Z Z Z seed_id setp_nonneg run_draw exec_draw_frame exec_draw_local 7%Z demo_heap 0 s1 c Hd
+                [] false [1; 1]%Z 99%Z) as [n [E Hn]].
+    rewrite (Hn eq_refl) in E. vm_compute in E. discriminate E.
+  - destruct (F Z Z Z Z seed_id setp_nonneg run_draw exec_draw_frame exec_draw_local 7%Z demo_heap 0 s1 c Hd
+                [] false [1]%Z 99%Z) as [n [E Hn]].
+    rewrite (Hn eq_refl) in E. vm_compute in E. discriminate E.
+Qed.
+Print Assumptions C06_seed_once_per_call_refuted.
+
+Example seed_once_demo :
+  snd (observe_rng Z Z Z Z seed_id setp_nonneg run_draw SeedOncePerCall (Some 7%Z) false src_policy [1; 1]%Z 99%Z
+         demo_heap 0) = [Some 13; Some 15]%Z.
+Proof. vm_compute. reflexivity. Qed.
+
+(* ------------------------------------------------------------------ the pickle route (round 2b) *)
+
+(* Under a multi-process or distributed scheduler the caller's processor reaches every run through a
+   pickle round trip (the custom __getstate__ / __setstate__ of ModelGroup, the default protocol
+   elsewhere) before Processor.replace copies it.  The regenerated policy of that round trip aliases
+   nothing and drops none of the configuration-carrying fields, so it is a fresh isomorphic block
+   like the deep copy, and the frame statement holds for it as well *)
+Theorem C06_pickle_route :
+  policy_ok src_pickle_policy = true /\ policy_complete src_pickle_policy = true /\
+  C06_frame_statement src_pickle_policy Deep.
+Proof.
+  assert (Hpol : policy_ok src_pickle_policy = true) by (vm_compute; reflexivity).
+  split; [exact Hpol|]. split; [vm_compute; reflexivity|].
+  intros params res run Hfr rs s0 p sn out H x Hx.
+  eapply observe_frame_locs; eauto.
+Qed.
+Print Assumptions C06_pickle_route.
+
+Example pickle_demo :
+  exists s', deepcopy src_pickle_policy demo_heap 0 = Some (s', 11) /\ length s' = 22.
+Proof. vm_compute. eexists. split; reflexivity. Qed.
 
 (* and the shallow copy of the whole processor (copy.copy) shares everything below it *)
 Example shallow_shares :
